@@ -9,6 +9,7 @@
    feature keys), none on the required list (it may repeat keys or contain seg_id). *)
 From Coq Require Import ZArith List Bool Permutation.
 From FT Require Import Base.Dict Model.NameMap Proofs.NameMapProofs.
+From FT Require Model.PyRt2 Gen.NameMapping_gen Proofs.NameMapTie.
 Import ListNotations.
 Open Scope Z_scope.
 
@@ -86,6 +87,23 @@ Definition ex1_closest : list (Z * list Z * option Z) :=
    (2, ex_disp, Some 30);           (* area_1 ~ "surface area" *)
    (3, ex_disp, Some 30);           (* area_2 ~ "surface area": perimeter already assigned *)
    (6, ex_disp, None)].
+(* ---- the functions these theorems are about are, for all arguments, the code translated on every run from
+        the current import_export/_name_mapping.py (Gen/NameMapping_gen.v; translator harness/translate_pure.py
+        + translate_name_mapping.py, fail closed).  [Ok]: the Python raises nothing on these inputs.
+        closest_sound: difflib answers with one of its candidates (the hypothesis of the theorems above);
+        NoDup of the feature keys: a Python dict has distinct keys. ---- *)
+Theorem C17_infer_node_is_generated : forall lower closest,
+  closest_sound closest -> forall cols required feats, NoDup (map f_key feats) ->
+  FT.Gen.NameMapping_gen.gen_infer_node_name_map lower closest cols required (FT.Proofs.NameMapTie.fd feats) =
+  FT.Model.PyRt2.Ok (infer_node_name_map lower closest cols required feats).
+Proof. exact FT.Proofs.NameMapTie.gen_infer_node_name_map_eq. Qed.
+
+Theorem C17_infer_edge_is_generated : forall lower closest,
+  closest_sound closest -> forall cols feats, NoDup (map f_key feats) ->
+  FT.Gen.NameMapping_gen.gen_infer_edge_name_map lower closest cols (Some (FT.Proofs.NameMapTie.fd feats)) =
+  FT.Model.PyRt2.Ok (infer_edge_name_map lower closest cols feats).
+Proof. exact FT.Proofs.NameMapTie.gen_infer_edge_name_map_eq. Qed.
+
 Example C17_replay_fuzzy :
   NoDup ex1_cols /\ closest_sound (tbl_closest ex1_closest) /\
   infer_node_name_map (tbl_lower ex_lower) (tbl_closest ex1_closest) ex1_cols [1] ex_feats
@@ -126,3 +144,5 @@ Print Assumptions C17_none_lost_none_twice.
 Print Assumptions C17_exact.
 Print Assumptions C17_exact_edge.
 Print Assumptions C17_model_total_branches_unreachable.
+Print Assumptions C17_infer_node_is_generated.
+Print Assumptions C17_infer_edge_is_generated.
